@@ -72,9 +72,14 @@ func ApplyChange(ctx context.Context, ds ipld.DAGService, nd *dag.ProtoNode, cs 
 			}
 
 		case Mod:
-			err := e.RmLink(ctx, c.Path)
-			if err != nil {
-				return nil, err
+			// An empty path denotes the root node itself (Diff reports it when
+			// the two roots do not carry the same Data): there is no link to
+			// replace, the edited tree becomes the new node.
+			if c.Path != "" {
+				err := e.RmLink(ctx, c.Path)
+				if err != nil {
+					return nil, err
+				}
 			}
 			child, err := ds.Get(ctx, c.After)
 			if err != nil {
@@ -84,6 +89,11 @@ func ApplyChange(ctx context.Context, ds ipld.DAGService, nd *dag.ProtoNode, cs 
 			childpb, ok := child.(*dag.ProtoNode)
 			if !ok {
 				return nil, dag.ErrNotProtobuf
+			}
+
+			if c.Path == "" {
+				e.root = childpb
+				continue
 			}
 
 			err = e.InsertNodeAtPath(ctx, c.Path, childpb, nil)
